@@ -248,15 +248,20 @@ func c16Oracle(c c16Case) error {
 	if stripped := reANSI.ReplaceAll(colored, nil); !bytes.Equal(stripped, plain) {
 		return fmt.Errorf("coloured output with the escape sequences removed is not the uncoloured output: %s", firstDiffBytes(plain, stripped))
 	}
-	if c.Regexp != "" {
-		fo, err := run("-no-color", "-f", c.Regexp)
+	for _, colour := range []string{"-no-color", "-force-color"} {
+		if c.Regexp == "" {
+			break
+		}
+		fo, err := run(colour, "-f", c.Regexp)
 		if err != nil {
 			return err
 		}
-		mo, err := run("-no-color", "-m", c.Regexp)
+		mo, err := run(colour, "-m", c.Regexp)
 		if err != nil {
 			return err
 		}
+		// colouring never changes the text: compare with the escape sequences removed
+		fo, mo = reANSI.ReplaceAll(fo, nil), reANSI.ReplaceAll(mo, nil)
 		// Both are sub-sequences of the unfiltered blocks; together they are all of them.
 		fi, mi := string(fo), string(mo)
 		var fOnly, mOnly int
@@ -279,11 +284,11 @@ func c16Oracle(c c16Case) error {
 				mi = mi[len(t):]
 				mOnly++
 			default:
-				return fmt.Errorf("block %d (%q) is in neither the -f nor the -m output for %q", bi, b.header, c.Regexp)
+				return fmt.Errorf("block %d (%q) is in neither the -f nor the -m output for %q (%s)", bi, b.header, c.Regexp, colour)
 			}
 		}
 		if fi != "" || mi != "" {
-			return fmt.Errorf("-f/-m outputs for %q contain text that is not an unfiltered block: %q %q", c.Regexp, quoteShort([]byte(fi)), quoteShort([]byte(mi)))
+			return fmt.Errorf("-f/-m outputs for %q (%s) contain text that is not an unfiltered block: %q %q", c.Regexp, colour, quoteShort([]byte(fi)), quoteShort([]byte(mi)))
 		}
 	}
 	return nil
@@ -305,7 +310,7 @@ func genC16(t *rapid.T) c16Case {
 	exp, err := c16Expected(&c)
 	if err == nil && len(exp) > 0 && !oneIn(t, 4, "noRegexp") {
 		h := exp[rapid.IntRange(0, len(exp)-1).Draw(t, "hdr")].header
-		switch rapid.IntRange(0, 5).Draw(t, "reKind") {
+		switch rapid.IntRange(0, 7).Draw(t, "reKind") {
 		case 0:
 			c.Regexp = regexp.QuoteMeta(h)
 		case 1:
@@ -321,6 +326,12 @@ func genC16(t *rapid.T) c16Case {
 			c.Regexp = "."
 		case 5:
 			c.Regexp = "no such header anywhere"
+		case 6:
+			// anchored at the end of the header
+			i := rapid.IntRange(0, len(h)-1).Draw(t, "tailFrom")
+			c.Regexp = regexp.QuoteMeta(strings.ToValidUTF8(h[i:], "")) + "$"
+		case 7:
+			c.Regexp = rapid.SampledFrom([]string{`\]$`, `\[locked\]$`, `^[0-9]+: [a-z ]+$`, `minutes\] \[`, `\] \[Created`, `[a-z] \[`}).Draw(t, "anchored")
 		}
 		if c.Regexp == "" {
 			c.Regexp = "x"
